@@ -5,7 +5,14 @@ from harness.scen import call, LOOK_TO, GO
 class C16(scen.WorldProp):
     id = "C16"
     lean_module = "Wheatley.Props.C16"
-    theorems = []
+    theorems = ["Wheatley.C16.comp_next",
+                "Wheatley.C16.comp_rows",
+                "Wheatley.C16.no_stand_in_calls",
+                "Wheatley.C16.comp_start_stroke",
+                "Wheatley.C16.calls_with_lead",
+                "Wheatley.C16.no_calls_tick",
+                "Wheatley.C16.no_calls_go",
+                "Wheatley.C16.late_go_flush"]
     level_text = ("theorems: a composition generator yields the payload's rows in order then rounds for ever; calls "
                   "attached to a row are exactly the payload's (minus 'Stand'); with calls off no call is ever emitted "
                   "(arbitrary payloads / states). correspondence: fake CompLib payloads (stage 4-10, 1-3 opening "
